@@ -258,6 +258,7 @@ def check_properties_file(pid):
 class Check:
     def __init__(self, pid, tier, seed):
         self.pid = pid
+        self.report_pid = pid      # property id printed in VIOLATION / KNOWN-FINDING lines (composite checks)
         self.tier = tier
         self.seed = seed
         self.rng = random.Random(seed)
@@ -322,13 +323,13 @@ class Check:
                               f, indent=1)
                 self.violations.append(("broken:" + name, name, path + " no-failing-input-found"))
         for fid, (k, what) in sorted(self.known_hits.items()):
-            print(f"KNOWN-FINDING: property={self.pid} {fid}: {k['what']} [now: {what}]")
+            print(f"KNOWN-FINDING: property={self.report_pid} {fid}: {k['what']} [now: {what}]")
         for k in self.known:
             if k.get("status", "open") == "open" and k["id"] not in self.known_hits:
                 self.notes.append(f"known finding {k['id']} not reproduced by this run")
         for cls, what, path in self.violations:
             print(f"note: {what}"[:600])
-            print(f"VIOLATION property={self.pid} replay={path}")
+            print(f"VIOLATION property={self.report_pid} replay={path}")
         cov = dict(self.cov)
         cov["samples"] = cov["samples"][:12] or ["(none)"]
         cov.update({"obligations": obligations, "discharged": discharged, "checker_cmd": checker_cmd,
